@@ -1076,6 +1076,33 @@ class Interp:
         return tuple(self._elts(e.elts, frame))
 
     def e_List(self, e, frame):
+        # `[x, *row]` where `row` is a symbolic row of unbounded length stays a symbolic row
+        if any(isinstance(x, ast.Starred) for x in e.elts):
+            from .symseq import SymSeq
+            parts = []
+            symbolic = False
+            for x in e.elts:
+                if isinstance(x, ast.Starred):
+                    v = self.eval(x.value, frame)
+                    if isinstance(v, SymSeq):
+                        symbolic = True
+                        parts.append(("seq", v))
+                    else:
+                        parts.append(("list", list(self._iter(v))))
+                else:
+                    parts.append(("list", [self.eval(x, frame)]))
+            if symbolic:
+                acc = None
+                for kind, v in parts:
+                    piece = v if kind == "seq" else v
+                    acc = piece if acc is None else (acc + piece)
+                if not isinstance(acc, SymSeq):
+                    raise Unsupported("symbolic row display")
+                return acc
+            out = []
+            for _kind, v in parts:
+                out.extend(v)
+            return out
         return self._elts(e.elts, frame)
 
     def e_Set(self, e, frame):
@@ -1438,6 +1465,9 @@ class Interp:
 
         def _list(s, a, k):
             if len(a) == 1:
+                from .symseq import SymSeq
+                if isinstance(a[0], SymSeq):
+                    return a[0]  # rows are immutable values here: a copy is the row itself
                 return list(s._iter(a[0]))
             return NotImplemented
 
